@@ -86,6 +86,23 @@ def gen_cases(tier, seed):
                  include_screening=True, screening_tolerance=1e-3, max_iterations_per_step=2000)
         drive = {"A": S.field_spec(rng, dev, o, "uniform", b=0.3), "currents": S.current_spec(rng, dev, o, "const" if dev["terminals"] else "none", strength=0.1)}
         cases.append({"layer": "L2", "kind": "off_seeded", "device": dev, "options": o, "drive": drive, "monitors": ["screening"], "cost": 20})
+    for k in range(1 if tier == "quick" else 4):
+        # the field is switched OFF for the continuation (exactly zero potential, no bias): the currents the seed carries decay,
+        # and while they do every step is a screening step like any other
+        dev = _scr_device(rng, "tiny")
+        dev["terminals"] = []
+        o = dict(solve_time=0.3, dt_init=1e-3, dt_max=0.05, adaptive=True, save_every=5, field_units="mT", current_units="uA", output="file",
+                 include_screening=True, screening_tolerance=1e-3, max_iterations_per_step=4000)
+        drive = {"A": S.field_spec(rng, dev, o, "uniform", b=0.3), "currents": {"kind": "none"}}
+        cases.append({"layer": "L2", "kind": "field_off_seeded", "device": dev, "options": o, "drive": drive, "monitors": ["screening"], "cost": 20})
+    for k in range(2 if tier == "quick" else 4):
+        # screening switched off on the solver's options AFTER the solver was constructed (k even), or between two solve() calls of
+        # one solver (k odd): a run without screening stores an identically zero induced potential
+        dev = _scr_device(rng, "tiny")
+        o = dict(solve_time=0.2, dt_init=1e-3, dt_max=0.05, adaptive=True, save_every=5, field_units="mT", current_units="uA", output="file",
+                 include_screening=True, screening_tolerance=1e-3, max_iterations_per_step=2000)
+        drive = {"A": S.field_spec(rng, dev, o, "uniform", b=0.3), "currents": S.current_spec(rng, dev, o, "const" if dev["terminals"] else "none", strength=0.1)}
+        cases.append({"layer": "L2", "kind": "toggled_off", "after_first_solve": bool(k % 2), "device": dev, "options": o, "drive": drive, "monitors": ["screening"], "cost": 15})
     for k in range(1 if tier == "quick" else 5):
         # second generation: options and seed re-loaded from the first run's file (flags come back as numpy scalars)
         dev = _scr_device(rng, "tiny")
@@ -209,6 +226,33 @@ def run_case(spec):
         spec["kind"] = "off"
         spec["seeded"] = True
         run_kwargs = dict(device=r0.device, seed_solution=r0.solution)
+    if spec["kind"] == "field_off_seeded":
+        import copy
+
+        r0 = sim.run_sim(spec, [], keep_dir=True)
+        if r0.refused:
+            return {"violations": [], "counters": {"refused_mesh": 1}, "classes": ["refused"], "nontrivial": False}
+        if r0.exception is not None or r0.solution is None:
+            return {"status": "harness_error", "error": "seed run failed: " + repr(r0.exception)[:200]}
+        spec = copy.deepcopy(spec)
+        spec["drive"]["A"] = {"kind": "zero"}
+        spec["kind"] = "screening"
+        spec["seeded"] = True
+        run_kwargs = dict(device=r0.device, seed_solution=r0.solution)
+    if spec["kind"] == "toggled_off":
+        import copy
+
+        after_first = spec.get("after_first_solve")
+        spec = copy.deepcopy(spec)
+        spec["kind"] = "off"
+        spec["toggled"] = True
+
+        def _toggle(solver):
+            if after_first:
+                solver.solve()  # a first run WITH screening on this solver object (its frames are not judged here)
+            solver.options.include_screening = False
+
+        run_kwargs = dict(pre_solve=_toggle)
     if spec["kind"] == "reloaded_options":
         import copy
 
@@ -230,7 +274,9 @@ def run_case(spec):
             spec["drive"]["A"]["B"] = 1.5 * spec["drive"]["A"]["B"]
         run_kwargs = dict(device=r0.device, seed_solution=loaded, options_obj=loaded.options)
     out = S.run_sim_case(spec, "C13", extra_listeners=[tm], post=post, **run_kwargs)
-    if run_kwargs:
+    if spec.get("toggled"):
+        out.setdefault("counters", {})["screening_toggled_off_runs"] = 1
+    elif run_kwargs:
         import shutil
 
         shutil.rmtree(r0.outdir, ignore_errors=True)
